@@ -327,6 +327,18 @@ def stream_items(tier, seed, want):
                         nested.extend(gen.insert_at_nodes(g2, w2)[:1])
         for g in nested:
             add(g, inp01, prio=True)
+        # recovery INSIDE the fallback of `via_parser` (the inner strategy takes the pending error as its own; the outer one
+        # must still report one), under every error type incl. the zero-sized one
+        A_, B_ = ('just', [gen.A]), ('just', [gen.B])
+        inner_fbs = [('recvia', B_, ('to', ('vnat', 9), ('any',))), ('recvia', B_, ('to', ('vnat', 8), ('empty',))),
+                     ('recskip', B_, ('any',), A_, ('vnat', 7)), ('recretry', B_, ('any',), ('end',)),
+                     ('then', ('recvia', B_, ('to', ('vnat', 9), ('any',))), ('ornot', A_))]
+        for a in (A_, ('then', A_, B_), ('any',), ('collect', 'vec', ('rep', A_, 1, None))):
+            for fb in inner_fbs:
+                g = ('recvia', a, fb)
+                for g2 in (g, ('then', g, ('ornot', B_)), ('collect', 'vec', ('rep', g, 0, 2))):
+                    for ek in ('empty', 'cheap', 'rich', 'simple'):
+                        add(g2, inputs_all(3, [gen.A, gen.B]), ek=ek, prio=True)
         # nested_delimiters: all bracket strings (valid and invalid) up to the bound
         nd_alpha = [gen.A, gen.B, gen.LP, gen.RP, gen.LB, gen.RB]
         for g, defs in gen.nd_family():
